@@ -278,24 +278,38 @@ _CROP_BOOL = {
     "isinstance(self.crop, IntegerListOrTupleString)": "(form == Crop.CropForm.intString)",
     "isinstance(self.crop, str)": "(form == Crop.CropForm.intString || form == Crop.CropForm.key)",
 }
+# a local that holds "the integers of the option, parsed when it is a string" may stand for `self.crop`
+_CROP_ALIAS_DEFS = {
+    "IntegerListOrTupleString(self.crop) if isinstance(self.crop, str) else self.crop",
+    "IntegerListOrTupleString(self.crop) if isinstance(self.crop, IntegerListOrTupleString) else self.crop",
+}
 _CROP_SIG = "(form : Crop.CropForm) (ndim : Int) (crop keyVal : List Int) (slices : Int) : List Int"
 
 
 def _crop_shape_def(tree) -> str:
     from . import c10_tables as tb
 
-    rows = tb.crop_shape_rule(tree)
-    tr = ExprTr({"kspace.ndim": "ndim", "len(self.crop)": "cropLen", "len(kspace.shape)": "ndim", "kspace.dim()": "ndim"},
-                _CROP_BOOL)
+    aliases: dict[str, str] = {}
+    rows = tb.crop_shape_rule(tree, aliases)
+    values = dict(_CROP_VALUES)
+    binds = {"kspace.ndim": "ndim", "len(self.crop)": "cropLen", "len(kspace.shape)": "ndim", "kspace.dim()": "ndim"}
+    for name, text in aliases.items():
+        if text not in _CROP_ALIAS_DEFS:
+            raise Untranslatable(f"local `{name} = {text}` in the crop_shape chain")
+        # NOTE: in the key branch the alias is not evaluated; in the other branches it is the parsed option
+        values.update({f"(kspace.shape[1],) + tuple({name})": "(slices :: crop)", f"(kspace.shape[1], *{name})": "(slices :: crop)",
+                       f"tuple({name})": "crop", f"list({name})": "crop", name: "crop"})
+        binds[f"len({name})"] = "cropLen"
+    tr = ExprTr(binds, _CROP_BOOL)
     out = "  let cropLen : Int := crop.length\n"
     for cond, val in rows:
-        if val not in _CROP_VALUES:
+        if val not in values:
             raise Untranslatable(f"crop_shape value `{val}`")
         if cond == "else":
-            out += f"  {_CROP_VALUES[val]}\n"
+            out += f"  {values[val]}\n"
             break
         c = tr.bool(ast.parse(cond, mode="eval").body)
-        out += f"  if {c} then {_CROP_VALUES[val]} else\n"
+        out += f"  if {c} then {values[val]} else\n"
     else:
         raise Untranslatable("crop_shape chain does not end in else")
     return f"def crop_shape_resolve {_CROP_SIG} :=\n{out}"
@@ -400,6 +414,19 @@ def _c10_extra2():
     except (Untranslatable, OSError) as e:
         text += f"\n/-- SKIPPED ({e}) -/\ndef primitiveCallers : List (String × String × String) := []\n"
         status["primitiveCallers"] = f"skipped: {e}"
+    # ---- dtype of the padded patch of crop_to_bbox
+    try:
+        from ..gen import find_function as _ff2
+
+        rows = tb.bbox_patch_alloc(_ff2(_pf(_R / BBOX), "crop_to_bbox"))
+        text += ("\n/-- translated from `direct/data/bbox.py`:`crop_to_bbox`: how the padded patch is allocated (constructor, kind) -/\n"
+                 "def bboxPatchAllocNames : List (String × String) := ["
+                 + ", ".join(f"({_lean_str(a)}, {_lean_str(b)})" for a, b in rows) + "]\n"
+                 "def bboxPatchAlloc : Option (List Crop.PatchAlloc) := bboxPatchAllocNames.mapM fun r => Crop.PatchAlloc.ofString r.2\n")
+        status["bboxPatchAlloc"] = f"translated ({len(rows)} allocations)"
+    except (Untranslatable, SyntaxError, OSError) as e:
+        text += (f"\n/-- SKIPPED ({e}) -/\ndef bboxPatchAlloc : Option (List Crop.PatchAlloc) := some [.full, .full]\n")
+        status["bboxPatchAlloc"] = f"skipped: {e}"
     # ---- crop shape rule
     try:
         text += (f"\n/-- translated from `{MT}`:`CropKspace.__call__` (the if-chain assigning `crop_shape`) -/\n"
